@@ -839,7 +839,9 @@ def cli_roundtrip(s, docs, tmpdir, tag, non_strict=True, incomplete=True):
         with open(p, 'wb') as f:
             f.write(d.encode('utf-8'))
         paths.append(p)
-    out = os.path.join(tmpdir, '%s-out.xml' % tag)
+    # the output file is whatever the caller names: with or without an extension
+    ext = ['.xml', '', '.mos.xml', '.2021-01-01', '.txt'][sum(map(ord, tag)) % 5]
+    out = os.path.join(tmpdir, '%s-out%s' % (tag, ext))
     with open(out, 'wb') as f:
         f.write(('<mos>' + '<old>previous, longer result</old>' * 3000 + '</mos>\n').encode())
     lib = None
